@@ -135,9 +135,9 @@ def run_case(case):
 
 
 def health(classes, n, tier):
-    need = {"A_nondeterministic_or_eps": 0.3, "multi_start": 0.05, "no_start": 0.01,
-            "intersection_nonempty": 0.08, "alphabet_overlap": 0.05, "shared_state_names": 0.3,
-            "eps_into_final": 0.03}
+    need = {"A_nondeterministic_or_eps": 0.12, "multi_start": 0.02, "no_start": 0.004,
+            "intersection_nonempty": 0.032, "alphabet_overlap": 0.02, "shared_state_names": 0.12,
+            "eps_into_final": 0.012}
     for k, frac in need.items():
         if classes.get(k, 0) < frac * n:
             return "class %s too rare: %d of %d" % (k, classes.get(k, 0), n)
